@@ -253,6 +253,14 @@ def run(ctx):
                 continue
             tail = [arc.file_member(rnd, '-lh5-', b'second.bin', size=30, level=1), arc.file_member(rnd, '-lh0-', b'third.bin', size=9, level=2)]
             hdrsz.append(('first-header-L%d-%dbytes' % (lvl, target), H.build(m) + b''.join(x.bytes() for x in tail) + b'\0'))
+    # a first member that is tiny altogether (header of 23..26 bytes plus 0..9 bytes of data): header AND data fit into whatever was
+    # read ahead while looking for the first header, so skipping that member happens partly or wholly inside the read-ahead
+    for lvl in (0, 1):
+        for nlen in (1, 2, 3):
+            for dsz in (0, 1, 2, 3, 5, 8, 9):
+                m = H.simple_member(b'abc'[:nlen], bytes(rnd.randrange(256) for _ in range(dsz)), level=lvl)
+                tail = [arc.file_member(rnd, '-lh0-', b'second.txt', size=11, level=0), arc.file_member(rnd, '-lh5-', b'third.bin', size=30, level=2)]
+                hdrsz.append(('tiny-first-member-L%d-name%d-data%d' % (lvl, nlen, dsz), H.build(m) + b''.join(x.bytes() for x in tail) + b'\0'))
     ctx.cov['first_header_size_archives'] = len(hdrsz)
     base = corp + gen + skipsz + hdrsz
     # truncations
